@@ -99,6 +99,14 @@ def run(ctx):
             if d in f.reach([f.normal_target(rb)], unwind=False) and rb in f.reach([d], unwind=False):
                 back = True
     ctx.ob("C09.2", "%s|count-decremented" % f.id, "the remaining count decreases by exactly what the read returned before looping", back, "%s:%d" % (f.file, f.line))
+    # the discard reads never ask for more than is still owed (otherwise the start of the next message is swallowed)
+    ctr = {s_["lhs"]["l"] for bb_, i_, s_ in f.assigns() if not s_["lhs"]["p"] and s_["rhs"]["rv"] == "use" and "size" in origin_fields(f.origin(s_["rhs"]["op"]))}
+    for bb_, i_, s_ in f.assigns():
+        if not s_["lhs"]["p"] and s_["rhs"]["rv"] == "use" and any(y[0] == "binop" for y in origin_walk(f.origin(s_["rhs"]["op"]))) and any(y[0] == "local" and y[1] in ctr for y in origin_walk(f.origin(s_["rhs"]["op"]))):
+            ctr.add(s_["lhs"]["l"])
+    for i, rb in enumerate(reads):
+        okb, why = shared.read_buffer_bounded_by(f, rb, ctr)
+        ctx.ob("C09.2", "%s|discard-read-bounded|%d" % (f.id, i), "each discarding read asks for at most the number of body bytes still owed", okb, f.loc(rb), why)
     # initial remaining is self.size
     init_ok = any(s["rhs"]["rv"] == "use" and "size" in origin_fields(f.origin(s["rhs"]["op"])) for bb, i, s in f.assigns() if not s["lhs"]["p"])
     ctx.ob("C09.2", "%s|starts-from-size" % f.id, "the number of bytes to discard is the reader's remaining size", init_ok, "%s:%d" % (f.file, f.line))
